@@ -201,10 +201,10 @@ inv_direct_cases = st.fixed_dictionaries({
 SUBCHECKS = [
     SubCheck("forward_closed_form", check_forward, strategy=forward_cases, nontrivial=_nt, classes=_classes,
              quick=4000, thorough=400000, shards_thorough=12,
-             rule="llh2xyz vs closed form, 1 micrometre; angle objects vs their decimal values, exact"),
+             fresh=(8, 64, 3), rule="llh2xyz vs closed form, 1 micrometre; angle objects vs their decimal values, exact"),
     SubCheck("inverse_from_geodetic", check_inverse_from_geodetic, strategy=inv_geo_cases, nontrivial=_nt,
              classes=_classes, quick=3000, thorough=300000, shards_thorough=10,
-             rule="closed-form xyz of a generated (lat, lon, h) -> xyz2llh -> closed form and llh2xyz, 0.02 mm; ranges"),
+             fresh=(8, 64, 3), rule="closed-form xyz of a generated (lat, lon, h) -> xyz2llh -> closed form and llh2xyz, 0.02 mm; ranges"),
     SubCheck("inverse_direct_xyz", check_inverse_direct, strategy=inv_direct_cases, nontrivial=lambda c: True,
              classes=_classes, quick=3000, thorough=300000, shards_thorough=10,
              rule="Cartesian points drawn directly (every octant, p from 1 mm, z = 0 plane) -> xyz2llh -> back, 0.02 mm"),
